@@ -4,6 +4,8 @@ package main
 
 import (
 	"fmt"
+	"sort"
+	"strings"
 
 	"golang.org/x/tools/go/ssa"
 )
@@ -93,4 +95,246 @@ func ruleC20DisabledMeansNever(c *Ctx) {
 			c.ok(construct, u.pos(f.Pos()), "loader invoked on every path; no stores to non-local memory")
 		}
 	}
+}
+
+func init() {
+	register(&propSpec{
+		ID:    "C20",
+		Title: "Key caching avoids external calls, and only for one revoke-check interval",
+		Explanation: "Structural necessary conditions of C20: (hit-is-pure) in keyCache.GetOrLoad/GetOrLoadLatest every loader()/load() call sits on the stale-or-miss edge of getFresh or the invalid edge of IsInvalid, and nothing on the " +
+			"fresh path can reach a Metastore/KMS method; (external-only-via-cache) under closure-binding-sensitive reachability every path from Session.Encrypt/Decrypt to a Metastore or KeyManagementService method passes through a " +
+			"keyCacher implementation's GetOrLoad/GetOrLoadLatest; (factory-wide-sk-cache) every session's skCache is the one object in SessionFactory.systemKeys, assigned only by NewSessionFactory; (reload-once) load() invokes the " +
+			"loader exactly once, unconditionally; (disabled-means-never) caching key caches are constructed only under their policy flag and neverCache retains nothing; (stale-means-reload, shared with C05) freshness is decided by " +
+			"isReloadRequired(entry, RevokeCheckInterval). Call counts over histories and interval arithmetic are not decided.",
+		NotDecided:  []string{"numbers of external calls over operation histories", "interval boundaries / clock arithmetic", "'working set fits the cache' (eviction behaviour of pkg/cache)"},
+		Assumptions: []string{"interface invokes resolve to the repo's implementations (user-supplied Metastore/KMS/AEAD are opaque)", "log.Debugf and metrics calls make no metastore/KMS calls"},
+		Tech:        "static analysis: closure-binding-sensitive call-graph reachability (who-may-call), guarded-by-condition on SSA",
+		NeedU1:      true,
+		Rules:       []func(*Ctx){ruleC20HitIsPure, ruleC20ExternalOnlyViaCache, ruleC20FactoryWideSKCache, ruleC20ReloadOnce, ruleC20DisabledMeansNever, ruleC05StaleMeansReload},
+	})
+}
+
+// isExternalKeyCall: invoke of a Metastore or KeyManagementService method.
+func isExternalKeyCall(i ssa.Instruction) bool {
+	cc := callOf(i)
+	if cc == nil || !cc.IsInvoke() {
+		return false
+	}
+	return typeIsNamed(cc.Value.Type(), pkgApp, "Metastore") || typeIsNamed(cc.Value.Type(), pkgApp, "KeyManagementService")
+}
+
+func externalFuncs(u *Universe) map[*ssa.Function]bool {
+	out := map[*ssa.Function]bool{}
+	for _, f := range u.RepoFuncs {
+		allInstrs(f, func(i ssa.Instruction) {
+			if isExternalKeyCall(i) {
+				out[f] = true
+			}
+		})
+	}
+	return out
+}
+
+func ruleC20HitIsPure(c *Ctx) {
+	u := c.U1
+	c.rule("C20.hit-is-pure", "in keyCache.GetOrLoad/GetOrLoadLatest every load()/loader() call is on getFresh's not-fresh edge or IsInvalid's true edge; no call on the path from getFresh's fresh edge to return can reach a Metastore/KMS method", 5)
+	gf := u.Method(pkgApp, "keyCache", "getFresh")
+	ld := u.Method(pkgApp, "keyCache", "load")
+	isInv := u.Method(pkgApp, "keyCache", "IsInvalid")
+	if gf == nil || ld == nil || isInv == nil {
+		c.unresolved("keyCache", "getFresh/load/IsInvalid")
+		return
+	}
+	cg := newCallGraph(u)
+	ext := externalFuncs(u)
+	for _, m := range []string{"GetOrLoad", "GetOrLoadLatest"} {
+		f := u.Method(pkgApp, "keyCache", m)
+		if f == nil {
+			c.unresolved(m, "(*keyCache)."+m)
+			continue
+		}
+		c.FuncsAnalysed[shortName(f)] = true
+		allInstrs(f, func(i ssa.Instruction) {
+			if staticCallee(i) != ld && !dynamicCallOfParam(i, "loader") {
+				return
+			}
+			c.CallSites++
+			notFresh := guardedBy(i, false, func(v ssa.Value) bool {
+				ex, ok := strip(v).(*ssa.Extract)
+				if !ok || ex.Index != 1 {
+					return false
+				}
+				cv, ok := ex.Tuple.(*ssa.Call)
+				return ok && staticCallee(cv) == gf
+			})
+			invalid := guardedBy(i, true, func(v ssa.Value) bool { cv, ok := strip(v).(*ssa.Call); return ok && staticCallee(cv) == isInv })
+			c.check(notFresh || invalid, shortName(f)+"/"+calleeLabel(i), u.ipos(i), "only on the miss/stale edge of getFresh or the invalid edge of IsInvalid",
+				"the loader (metastore/KMS) is invoked although the cached key is fresh and valid: caching no longer avoids external calls")
+		})
+		// fresh path purity
+		allInstrs(f, func(i ssa.Instruction) {
+			if staticCallee(i) != gf {
+				return
+			}
+			cv, isCall := i.(*ssa.Call)
+			if !isCall {
+				return
+			}
+			var offender string
+			for _, b := range f.Blocks {
+				for _, s := range b.Succs {
+					for _, fct := range edgeFacts(b, s) {
+						ex, ok := strip(fct.V).(*ssa.Extract)
+						if !ok || ex.Index != 1 || ex.Tuple != ssa.Value(cv) || !fct.True {
+							continue
+						}
+						_, _ = pathSearchAt(s, 0, func(j ssa.Instruction) pathAction {
+							if staticCallee(j) == isInv {
+								return pathContinue
+							}
+							if callOf(j) == nil {
+								return pathContinue
+							}
+							// invalid edge re-load is governed by the first clause; stop there
+							if dynamicCallOfParam(j, "loader") || staticCallee(j) == ld {
+								return pathStop
+							}
+							for t := range cg.calleesAt(j, cgEnv{}) {
+								for r := range cg.reachableFrom(t) {
+									if ext[r] {
+										offender = u.ipos(j) + " " + instrText(j) + " → " + trimPkgDirs(shortName(r))
+									}
+								}
+							}
+							return pathContinue
+						}, nil)
+					}
+				}
+			}
+			c.check(offender == "", shortName(f)+"/fresh-path", u.ipos(i), "no call on the fresh path reaches a Metastore/KMS method", "a call on the cache-hit path can reach the metastore/KMS: "+offender)
+		})
+	}
+}
+
+func ruleC20ExternalOnlyViaCache(c *Ctx) {
+	u := c.U1
+	c.rule("C20.external-only-via-cache", "every call-graph path (closure-binding-sensitive) from Session.Encrypt/Decrypt to a Metastore.* / KeyManagementService.* call passes through GetOrLoad/GetOrLoadLatest of a keyCacher implementation; the SDK core has exactly the expected external call sites", 3)
+	iface := u.Iface(pkgApp, "keyCacher")
+	if iface == nil {
+		c.unresolved("keyCacher", "appencryption.keyCacher")
+		return
+	}
+	gate := map[*ssa.Function]bool{}
+	for _, n := range u.Implementations(iface) {
+		for _, m := range []string{"GetOrLoad", "GetOrLoadLatest"} {
+			if f := u.MethodOf(n, m); f != nil {
+				gate[orig(f)] = true
+			}
+		}
+	}
+	cg := newCallGraph(u)
+	ext := externalFuncs(u)
+	for _, m := range []string{"Encrypt", "Decrypt"} {
+		start := u.Method(pkgApp, "Session", m)
+		if start == nil {
+			c.unresolved("Session."+m, "(*Session)."+m)
+			continue
+		}
+		reach := cg.reachableFromAvoiding(start, func(f *ssa.Function) bool { return gate[f] })
+		var hits []string
+		gated := 0
+		for f := range reach {
+			c.FuncsAnalysed[shortName(f)] = true
+			if gate[f] {
+				gated++
+				continue
+			}
+			if ext[f] {
+				hits = append(hits, strings.Join(cg.pathTo(reach, f), " → "))
+			}
+		}
+		sort.Strings(hits)
+		if len(hits) > 0 {
+			c.bad("Session."+m+"/bypass", u.pos(start.Pos()), "a Metastore/KMS call is reachable without going through a key cache: "+strings.Join(hits, " | "))
+		} else {
+			c.check(gated > 0, "Session."+m+"/bypass", u.pos(start.Pos()), fmt.Sprintf("%d functions reachable outside the key caches, none calls Metastore/KMS; %d cache entry points reached", len(reach)-gated, gated),
+				"no key cache entry point is reachable from Session."+m)
+		}
+	}
+	// inventory of external call sites in the SDK core
+	nm, nk := 0, 0
+	for _, f := range u.RepoFuncs {
+		if f.Pkg == nil || rootFunc(f).Pkg.Pkg.Path() != pkgApp {
+			continue
+		}
+		allInstrs(f, func(i ssa.Instruction) {
+			if cc := callOf(i); cc != nil && cc.IsInvoke() {
+				if typeIsNamed(cc.Value.Type(), pkgApp, "Metastore") {
+					nm++
+				}
+				if typeIsNamed(cc.Value.Type(), pkgApp, "KeyManagementService") {
+					nk++
+				}
+			}
+		})
+	}
+	c.CallSites += nm + nk
+	c.check(nm >= 6 && nk >= 2, "appencryption/external-call-sites", "", fmt.Sprintf("%d Metastore and %d KMS call sites in the SDK core", nm, nk), fmt.Sprintf("expected at least 6 Metastore and 2 KMS call sites in the SDK core, found %d/%d (anchors moved?)", nm, nk))
+}
+
+func ruleC20FactoryWideSKCache(c *Ctx) {
+	u := c.U1
+	c.rule("C20.factory-wide-sk-cache", "newSession gives every envelopeEncryption the factory's systemKeys cache as skCache; SessionFactory.systemKeys is assigned only in NewSessionFactory", 2)
+	ns := u.Func(pkgApp, "newSession")
+	if ns == nil {
+		c.unresolved("newSession", "appencryption.newSession")
+		return
+	}
+	c.FuncsAnalysed[shortName(ns)] = true
+	good := false
+	n := 0
+	allInstrs(ns, func(i ssa.Instruction) {
+		a, ok := i.(*ssa.Alloc)
+		if !ok || a.Comment != "complit" || !typeIsNamed(a.Type(), pkgApp, "envelopeEncryption") {
+			return
+		}
+		n++
+		if v, has := litFields(a)["skCache"]; has && strings.HasSuffix(accessPath(v), "P:f.systemKeys") {
+			good = true
+		}
+	})
+	c.check(good && n == 1, shortName(ns)+"/skCache", u.pos(ns.Pos()), "skCache = f.systemKeys", "a session's system-key cache is not the factory-wide cache: each session would unwrap the system key through the KMS again")
+	bad := ""
+	cnt := 0
+	for _, f := range u.RepoFuncs {
+		allInstrs(f, func(i ssa.Instruction) {
+			if st, ok := i.(*ssa.Store); ok {
+				if base, fld, isF := fieldAccess(st.Addr); isF && fld == "systemKeys" && typeIsNamed(base.Type(), pkgApp, "SessionFactory") {
+					cnt++
+					if rootFunc(f).Name() != "NewSessionFactory" {
+						bad = u.ipos(i)
+					}
+				}
+			}
+		})
+	}
+	c.check(bad == "" && cnt == 1, "SessionFactory.systemKeys/writers", "", "assigned once, in NewSessionFactory", "SessionFactory.systemKeys is (re)assigned outside NewSessionFactory: "+bad)
+}
+
+func ruleC20ReloadOnce(c *Ctx) {
+	u := c.U1
+	c.rule("C20.reload-once", "keyCache.load invokes the loader exactly once, unconditionally (entry block), so a stale key costs one re-read", 1)
+	f := u.Method(pkgApp, "keyCache", "load")
+	if f == nil {
+		c.unresolved("load", "(*keyCache).load")
+		return
+	}
+	n, entry := 0, false
+	allInstrs(f, func(i ssa.Instruction) {
+		if dynamicCallOfParam(i, "loader") {
+			n++
+			entry = i.Block() == f.Blocks[0]
+		}
+	})
+	c.check(n == 1 && entry, shortName(f)+"/loader-calls", u.pos(f.Pos()), "one unconditional loader call", fmt.Sprintf("load() calls the loader %d times / conditionally", n))
 }
